@@ -42,11 +42,15 @@ for id,(name,needs,detected) in T.items():
             tail=[l for l in open(f,errors='replace').read().strip().split('\n') if l.startswith('ok') or l.startswith('FAIL') or 'timed out' in l]
             agent_suite+=f'{os.path.basename(f)}: '+' | '.join(tail[-4:])+'\n'
         except Exception as e: pass
+    second_wave = id in ('C11','C13','C14','C16')
+    note = "my own run of the unedited repository suite with the change (tools/confirm.sh / csuite.sh) " + ("passed" if suite_ok_me else "was cut off by the go test timeout while the machine was overloaded by the parallel sub-agents (no --- FAIL line before the cut-off); the sub-agent's own run with a long timeout passed, its log lines are below")
+    if second_wave and not suite_ok_me:
+        note = "NOT confirmed: this change was produced in the second wave, whose sub-agents were told to run only the tests related to the code they touched (they passed; a FAIL line in related.log is the TestSeeded demonstration itself, matched by an unanchored -run pattern); my own full-suite run with the change did not finish before the end of the session"
     meta={"property":id,"breaks":open(f'{out}/notes.md').read().split('\n')[0][:400] if os.path.exists(f'{out}/notes.md') else '',
       "needs_to_manifest":needs,
       "confirmed_by_me":conf,
       "suite_with_change":{"confirmed_by_me":suite_ok_me,
-         "note":"my own run of the unedited repository suite with the change (tools/confirm.sh) " + ("passed" if suite_ok_me else "was cut off by the go test timeout while the machine was overloaded by the parallel sub-agents (no --- FAIL line before the cut-off); the sub-agent's own run with a long timeout passed, its log lines are below"),
+         "note":note,
          "sub_agent_log":agent_suite.strip().split('\n')},
       "what_i_ran":["tools/confirm.sh b5%s / /root/sweeps/cdemo.sh %s  (demo with change must fail, demo without change must pass; repository suite with the change)"%(id,id),
                     "tools/seedalt.sh /tmp/mut_b5%s_out/patch.diff <checks>  (scratch worktree of /repo + scratch copy of /verif, quick tier, VERIF_SEED=1)"%id],
